@@ -6,6 +6,7 @@ import (
 	"os"
 	"strconv"
 	"testing"
+	"time"
 
 	"pgregory.net/rapid"
 )
@@ -32,8 +33,17 @@ func rapidCheck(t *testing.T, name string, gen func(*rapid.T) interface{}) {
 		t.Fatalf("unknown check %s", name)
 	}
 	rapid.Check(t, func(rt *rapid.T) {
+		t0 := time.Now()
 		spec := gen(rt)
+		tg := time.Since(t0)
 		res := d.runSafely(spec)
+		if ms := envInt("VERIF_SLOW", 0); ms > 0 && time.Since(t0) > time.Duration(ms)*time.Millisecond {
+			js, _ := json.Marshal(spec)
+			if len(js) > 600 {
+				js = append(js[:600:600], "..."...)
+			}
+			fmt.Printf("SLOW %s gen=%v total=%v spec(%d bytes)=%s\n", name, tg, time.Since(t0), len(js), js)
+		}
 		col.Case(name, spec, res)
 		if res.Err != nil {
 			recordFailure(d, spec, res.Err)
